@@ -17,6 +17,7 @@ from fractions import Fraction
 import numpy as np
 
 from ..poly import z3mod, Poly
+from ..cprog import MalformedProgram
 from ..tv import Compiled, discharge_row
 from ..oracle import cons_eval, OAtom
 from .. import detgen
@@ -46,7 +47,7 @@ META = dict(
                  'definitional encodings of sqrt / rational powers as real algebraic equations'],
 )
 
-TOL_ATOMS = ('quadpsd', 'quadnsd', 'quaddiag')
+TOL_ATOMS = ('quadpsd', 'quadnsd', 'quaddiag', 'quadnonsym', 'quadnonsym2')
 TOWER_ATOMS = ('power', 'powerarr', 'pnorm', 'gmean')
 
 
@@ -66,8 +67,22 @@ def run_case(case, ses):
     spec = case['spec']
     z3 = z3mod()
     tower = spec['atom'] in TOWER_ATOMS or spec.get('base') in ('power3', 'gmean')
-    with quiet():
-        cm = Compiled(detgen.desc_from_spec(spec), abstract_towers=tower, front=spec.get('front', 'ro'))
+    try:
+        with quiet():
+            cm = Compiled(detgen.desc_from_spec(spec), abstract_towers=tower, front=spec.get('front', 'ro'))
+    except HarnessError:
+        raise
+    except MalformedProgram as e:
+        data = dict(spec=spec, malformed=str(e))
+        finding(ses, '%s:%s:malformed' % (PROP, spec['name']), 'model %s: %s' % (spec['name'], e), data,
+                'rsv.props.%s:replay' % PROP.lower())
+        return
+    except Exception as e:
+        if not spec.get('may_raise'):
+            raise
+        # RSOME refuses the expression loudly: allowed ("where an operation is not supported it raises")
+        ses.stats.kinds['member-rejected-by-rsome'] = ses.stats.kinds.get('member-rejected-by-rsome', 0) + 1
+        return
     ses.stats.programs += 1
     cp = cm.cp
     if tower:
@@ -204,6 +219,15 @@ def replay(data, verbose=False, want_info=False):
     """v* is accepted by the real compiled program (exact check of rows, bounds, cones) and the
     user's constraint evaluated directly at its user-variable part is violated."""
     spec = data['spec']
+    if 'malformed' in data:
+        try:
+            with quiet():
+                Compiled(detgen.desc_from_spec(spec), front=spec.get('front', 'ro'))
+        except MalformedProgram as e:
+            if verbose:
+                print('model %s: %s' % (spec['name'], e))
+            return (True, {}) if want_info else True
+        return (False, {}) if want_info else False
     with quiet():
         cm = Compiled(detgen.desc_from_spec(spec), abstract_towers=((spec['atom'] in TOWER_ATOMS or spec.get('base') in ('power3', 'gmean')) and data['row'] != 'solver-point'), front=spec.get('front', 'ro'))
     v = data['v']
